@@ -385,7 +385,8 @@ func genC04(rt *rapid.T, allowOverlap bool) c04Case {
 		if rapid.IntRange(0, 7).Draw(rt, "big") == 0 {
 			n = rapid.IntRange(120, 300).Draw(rt, "nbig")
 		}
-		t := int64(1000) + int64(rapid.IntRange(0, 5).Draw(rt, "t0"))*interval
+		// timestamps at and below zero are legal in TSDB
+		t := rapid.SampledFrom([]int64{1000, 1000, 0, -30 * interval, -400 * interval}).Draw(rt, "tBase") + int64(rapid.IntRange(0, 5).Draw(rt, "t0"))*interval
 		var ss []smpl
 		for j := 0; j < n; j++ {
 			ss = append(ss, smpl{t, float64(i*1000 + j)})
@@ -467,7 +468,7 @@ func genC04(rt *rapid.T, allowOverlap bool) c04Case {
 	case 2:
 		c.mint, c.maxt = tmin, tmax
 	default:
-		c.mint, c.maxt = 0, math.MaxInt64/2
+		c.mint, c.maxt = math.MinInt64/2, math.MaxInt64/2
 	}
 	var sb strings.Builder
 	fmt.Fprintf(&sb, "replicaLabel=%s replicaLabel2=%q replicas=%d range=[%d,%d] ", c.replicaLabel, c.replicaLabel2, c.replicas, c.mint, c.maxt)
